@@ -101,6 +101,8 @@ def oracle_case(case):
         return oracle_effect(case)
     if case.get('via') == 'scope':
         return oracle_scope(case)
+    if case.get('via') == 'leaves':
+        return oracle_leaves(case)
     src, mode, via = case['src'], case['mode'], case.get('via', 'raw')
     try:
         if via == 'api':
@@ -515,6 +517,41 @@ HAND = [
 ]
 
 
+# Python 3.12 constructs the generator may meet (label, mode, source): each is either regenerated faithfully or rejected
+# (tree oracle on raw / api), runs through every model stream, and is counted as py312:<label>:<via>:<outcome> in dist
+HAND_312 = [
+    ('match', 'exec', 'match x:\n    case 1:\n        pass\n    case [a, *b]:\n        pass\n    case {"k": v, **r}:\n        pass\n    case P(x=1) | None:\n        pass\n    case _ if g:\n        pass'),
+    ('walrus', 'eval', '(y := f(x))'), ('walrus', 'eval', '[y for x in z if (y := x)]'), ('walrus', 'exec', 'while (n := f()): pass'),
+    ('fstring', 'eval', "f'{a}'"), ('fstring', 'eval', "f'{a!r:>{w}}'"), ('fstring', 'eval', "f'{d[\"k\"]}'"),
+    ('fstring', 'eval', "f'{x:{y}.{z}}'"), ('fstring', 'eval', "f'{f\"{a}\"}'"), ('fstring', 'eval', "f'{a=}'"),
+    ('async-comp', 'eval', '[x async for x in y]'), ('async-comp', 'eval', '(x async for x in y)'),
+    ('async-comp', 'eval', '(x async for x in y if x async for z in x)'), ('await', 'eval', '[await x for x in y]'),
+    ('async-comp', 'eval', '{x async for x in y}'), ('async-def', 'exec', 'async def f():\n    return [x async for x in y]'),
+    ('async-def', 'exec', 'async def f():\n    async with a as b: pass\n    async for x in y: pass\n    await z'),
+    ('star-index', 'eval', 'a[*b]'), ('star-index', 'eval', 'a[*b, c]'), ('star-index', 'eval', 'a[1:2, *b]'),
+    ('star-index', 'exec', 'a[*b] = 1'), ('star-index', 'exec', 'del a[*b]'),
+    ('star-return', 'exec', 'def f():\n    return *a, b'), ('star-return', 'exec', 'def f():\n    yield *a, b'),
+    ('star-return', 'exec', 'def f():\n    return 1, *a'), ('star-return', 'exec', 'for x in *a, b: pass'), ('star-return', 'exec', 'x = *a, b'),
+    ('posonly', 'exec', 'def f(a, /, b, *, c): pass'), ('posonly', 'eval', 'lambda a, /, b=1, *, c: a'), ('posonly', 'exec', 'def f(a=1, /): pass'),
+    ('posonly', 'exec', 'def f(a, /, *args, **kw): pass'), ('posonly', 'exec', 'def f(a: int = 1, /, b: str = 2, *c: int, d: int = 3, **e: int) -> int: pass'),
+    ('type-alias', 'exec', 'type X = int'), ('type-alias', 'exec', 'type X[T] = list[T]'),
+    ('type-params', 'exec', 'def f[T](x: T) -> T: pass'), ('type-params', 'exec', 'class A[T]: pass'), ('type-params', 'exec', 'def f[*Ts, **P](): pass'),
+    ('except-star', 'exec', 'try:\n    pass\nexcept* E:\n    pass'), ('except-star', 'exec', 'try:\n    pass\nexcept* (A, B) as e:\n    pass'),
+    ('annassign', 'exec', 'x: int = 1'), ('annassign', 'exec', 'x: int'), ('nonlocal', 'exec', 'def f():\n    x = 1\n    def g():\n        nonlocal x'),
+    ('yield-from', 'exec', 'def f():\n    yield from g()'), ('matmult', 'eval', 'a @ b'), ('matmult', 'exec', 'a @= b'),
+    ('set', 'eval', '{1, 2}'), ('set', 'eval', '{k: v for k, v in x}'), ('set', 'eval', '{*a, *b}'), ('dict-unpack', 'eval', '{**a, "k": 1}'),
+    ('paren-with', 'exec', 'with (a as b, c as d): pass'), ('call-star', 'eval', 'f(*a, **k)'), ('call-star', 'eval', 'f(**a, **b)'),
+    ('number', 'eval', '1_000'), ('number', 'eval', '0x_ff'), ('number', 'eval', '1e400'), ('number', 'eval', '-1e400'), ('number', 'eval', '1j'),
+    ('string', 'eval', "b'a' b'b'"), ('string', 'eval', "'a' 'b'"), ('ellipsis', 'eval', '...'), ('ellipsis', 'eval', 'a[...]'), ('ellipsis', 'eval', 'a[..., 1]'),
+    ('import', 'exec', 'import a.b.c as d'), ('import', 'exec', 'from .. import x'), ('import', 'exec', 'from .a import *'), ('import', 'exec', 'from a import (b, c)'),
+    ('class', 'exec', '@a.b(c)\n@d\nclass X(Y, metaclass=M, **kw): pass'), ('raise', 'exec', 'raise E from None'),
+    ('try', 'exec', 'def f():\n    try:\n        pass\n    except E:\n        pass\n    return x'),
+    ('try', 'exec', 'try:\n    pass\nfinally:\n    pass\nx'), ('try', 'exec', 'try:\n    a\nexcept E:\n    b\nelse:\n    c\nfinally:\n    d'),
+    ('try', 'exec', 'if a:\n    try:\n        b\n    except:\n        c\nelse:\n    d'),
+    ('yield', 'eval', '(yield)'), ('yield', 'eval', 'lambda: (yield)'), ('slice', 'eval', 'x[a:b:c]'), ('slice', 'eval', 'x[::]'), ('slice', 'eval', 'x[a,]'),
+    ('tuple', 'eval', 'x[()]'), ('tuple', 'eval', '()'), ('tuple', 'eval', '(a,)'), ('tuple', 'eval', '[*a]'), ('tuple', 'eval', '(*a, b)'),
+]
+
 HAND_EFFECT = [
     ('x = 1\ndef f(): return x\nx = 2\nr = f()', {}),
     ('def f(n):\n    if n <= 0: return 0\n    return n + f(n - 1)\nr = f(3)', {}),
@@ -597,6 +634,41 @@ def run_cases(cases, res, tag):
             res.failures.append(f)
 
 
+def leaf_failure(case, tree, toks, code=None):
+    """the leaf oracle on one tree and the tokens of its regenerated source: every identifier, literal,
+    operator and clause keyword of the tree (harness/py_leaves.py, written against the Python grammar)
+    occurs in the regenerated source, in order — demanded only of accepted programs (the source compiles)"""
+    from harness import py_leaves
+    want = py_leaves.leaves_of(tree, case['mode'])
+    if want is None:
+        return None
+    k = py_leaves.missing_leaf(want, toks)
+    if k is None:
+        return None
+    if code is None:
+        from genshi.template.astutil import ASTCodeGenerator
+        code = ASTCodeGenerator(tree).code
+    try:
+        compile(code, '<regenerated>', case['mode'])
+    except (SyntaxError, ValueError, RecursionError, MemoryError):
+        return None          # rejected: construction fails loudly
+    return {'case': {'mode': case['mode'], 'src': case['src'], 'via': 'leaves', 'tree': case.get('via', 'raw')},
+            'what': 'every identifier, literal, operator and clause keyword of the tree occurs in the regenerated source, in order',
+            'expected': 'leaf #%d %r (of %r)' % (k, want[k], want[:60]), 'observed': repr(toks)[:1500],
+            'regenerated': code[:600]}
+
+
+def oracle_leaves(case):
+    c = {'mode': case['mode'], 'src': case['src'], 'via': case.get('tree', 'raw')}
+    tree = trees_of(c)
+    if tree is None:
+        return None
+    real = real_gen(tree)
+    if real[0] != 'ok':
+        return None
+    return leaf_failure(c, tree, [t for _, l in real[1] for t in l])
+
+
 def real_gen(tree):
     """('ok', lines) | ('raises', exception class) | ('untokenizable', code) for the real generator on a tree"""
     from genshi.template.astutil import ASTCodeGenerator
@@ -609,7 +681,7 @@ def real_gen(tree):
     ls = G.tokens_of(code)
     if ls is None:
         return 'untokenizable', code
-    return 'ok', ls
+    return 'ok', ls, code
 
 
 def trees_of(case):
@@ -784,7 +856,7 @@ def compare_model(cases, res):
     """Lean gen vs ASTCodeGenerator on the same trees, as token streams"""
     compare_parse(cases, res)
     compare_parseS(cases, res)
-    lines, meta = [], []
+    lines, meta, lv, ch = [], [], [], []
     for c in cases:
         try:
             tree = trees_of(c)
@@ -797,6 +869,12 @@ def compare_model(cases, res):
             continue
         lines.append(req)
         meta.append((c, real))
+        if real[0] == 'ok':
+            lv.append((c, tree, [t for _, l in real[1] for t in l]))
+        if real[0] in ('ok', 'raises'):
+            ch.append((c, tree, real))
+    compare_leaves(lv, res)
+    compare_chars(ch, res)
     answers = proto.run_lines(lines)
     for (c, real), ans in zip(meta, answers):
         stream = 'gen-' + c['mode']
@@ -820,6 +898,113 @@ def compare_model(cases, res):
         res.count('model:' + ('raises' if want == 'raises' else 'ok'))
         if model != want:
             res.disagreements.append({'stream': stream, 'case': c, 'model': repr(model)[:600], 'real': repr(want)[:600]})
+
+
+def compare_chars(items, res):
+    """character level: the string the Lean writer model produces (`codeE` / `codeS`, Model/PyLayout.lean) vs
+    ASTCodeGenerator(tree).code, compared exactly; and the Lean line-structure reader `retok` on that string vs
+    CPython's tokenize (depth of every logical line, and the text of the line tokenizes to the line's tokens)"""
+    lines, meta = [], []
+    for c, tree, real in items:
+        try:
+            if c['mode'] == 'eval':
+                req = proto.line(Atom('C13'), Atom('code'), G.to_wire(tree.body))
+            else:
+                req = proto.line(Atom('C13'), Atom('codeS'), [G.to_wire(s) for s in tree.body])
+        except RecursionError:
+            res.count('chars:recursion-limit')
+            continue
+        lines.append(req)
+        meta.append((c, real))
+    answers = proto.run_lines(lines)
+    for (c, real), ans in zip(meta, answers):
+        stream = 'chars-' + c['mode']
+        if ans == 'unmodelled':
+            res.count('chars:unmodelled')
+            continue
+        res.streams[stream] = res.streams.get(stream, 0) + 1
+        try:
+            model = proto.dec(ans)
+        except Exception:  # noqa
+            model = Atom(ans)
+        if real[0] == 'raises':
+            res.count('chars:raises')
+            if model != 'raises':
+                res.disagreements.append({'stream': stream, 'case': c, 'model': repr(model)[:600], 'real': 'raises ' + real[1]})
+            continue
+        code = real[2]
+        nl = code.count('\n')
+        res.count('chars:lines=%s' % ('1' if nl <= 1 else '2-5' if nl <= 5 else '6+'))
+        if not (isinstance(model, list) and len(model) >= 2 and model[0] == 'ok' and model[1] == code):
+            res.disagreements.append({'stream': stream, 'case': c, 'model': repr(model[:2] if isinstance(model, list) else model)[:900],
+                                      'real': repr(code)[:900]})
+            continue
+        if c['mode'] == 'exec':
+            # the reader `retok` against tokenize on the same string
+            stream = 'retok-vs-tokenize'
+            res.streams[stream] = res.streams.get(stream, 0) + 1
+            want = [[d, l] for d, l in real[1]]
+            got = model[2] if len(model) > 2 else None
+            ok = isinstance(got, list) and len(got) == len(want)
+            if ok:
+                for (d, l), g in zip(want, got):
+                    if str(d) != str(g[0]) or G.flat_tokens(g[1]) != l:
+                        ok = False
+                        break
+            depth = max([d for d, _ in want] or [0])
+            res.count('retok:depth=%s' % (depth if depth < 4 else '4+'))
+            if '\n    \n' in code or '\n' + ' ' * 8 + '\n' in code:
+                res.count('retok:blank-line')
+            if not ok:
+                res.disagreements.append({'stream': stream, 'case': c, 'model': repr(got)[:900], 'real': repr(want)[:900]})
+
+
+def compare_leaves(items, res):
+    """`leaves` / `leavesB` of the Lean model vs harness/py_leaves.py on the same trees (accepted by the
+    real generator), and the leaf oracle on the real code: the leaves are a subsequence of
+    tokenize(ASTCodeGenerator(tree).code)"""
+    from harness import py_leaves
+    lines, meta = [], []
+    for c, tree, toks in items:
+        if not in_hypothesis(c):
+            continue
+        try:
+            want = py_leaves.leaves_of(tree, c['mode'])
+            if c['mode'] == 'eval':
+                req = proto.line(Atom('C13'), Atom('leaves'), G.to_wire(tree.body))
+            else:
+                req = proto.line(Atom('C13'), Atom('leavesS'), [G.to_wire(s) for s in tree.body])
+        except RecursionError:
+            res.count('leaves:recursion-limit')
+            continue
+        lines.append(req)
+        meta.append((c, tree, toks, want))
+    answers = proto.run_lines(lines)
+    for (c, tree, toks, want), ans in zip(meta, answers):
+        stream = 'leaves-' + c['mode']
+        if ans == 'unmodelled':
+            res.count('leaves:unmodelled')
+            continue
+        if ans == 'outside' or want is None:
+            res.count('leaves:outside' + ('' if (ans == 'outside') == (want is None) else ':one-side-only'))
+            if ans == 'outside' and want is not None:
+                # the Lean domain is narrower than the oracle's: still judge the real code
+                f = leaf_failure(c, tree, toks)
+                if f:
+                    res.failures.append(f)
+            continue
+        res.streams[stream] = res.streams.get(stream, 0) + 1
+        try:
+            model = proto.dec(ans)
+        except Exception:  # noqa
+            model = Atom(ans)
+        res.count('leaves:n=%s' % ('0-3' if len(want) < 4 else '4-15' if len(want) < 16 else '16+'))
+        if model != [Atom('ok'), want]:
+            res.disagreements.append({'stream': stream, 'case': c, 'model': repr(model)[:900], 'real': repr([Atom('ok'), want])[:900]})
+        res.evaluations += 1
+        f = leaf_failure(c, tree, toks)
+        if f:
+            res.failures.append(f)
 
 
 # --------------------------------------------------------------------------
@@ -964,6 +1149,14 @@ def shard(arg):
     cases = gen_cases(rng, n_expr, n_stmt)
     if idx == 0:
         cases = [{'mode': m, 'src': s, 'via': v} for m, s in HAND for v in ('raw', 'api')] + cases
+        for lab, m, s_ in HAND_312:
+            for v in ('raw', 'api'):
+                c = {'mode': m, 'src': s_, 'via': v}
+                try:
+                    res.count('py312:%s:%s:%s' % (lab, v, outcome_kind(c)))
+                except RecursionError:
+                    continue
+                cases.insert(0, c)
         for s_, d_ in HAND_EFFECT:
             f = oracle_effect({'mode': 'exec', 'via': 'effect', 'src': s_, 'data': d_})
             res.evaluations += 1
